@@ -141,6 +141,29 @@ Definition inbound_announces := inbound_announces_with add_peer.
 Definition outbound_announces : bool := Generated.c14_outbound_announces.
 
 Definition get_peer (r : reg) (p : pid) : option peer := get p (overlays r).
+(* isConnected: the peer record when both overlays and connections have the key *)
+Definition is_connected (r : reg) (p : pid) : option peer :=
+  match get p (overlays r) with
+  | Some pe => if has p (conns r) then Some pe else None
+  | None => None
+  end.
+
+(* Service.Connect (outbound) from the point where the handshake has succeeded with record pe on
+   connection c:  if isConnected(id) { return that peer }  ...handshake...
+   exists := addPeer(conn, pe); if exists { if _, registered := getPeer(id); !registered { return
+   ErrPeerNotFound } }; return *pe.   Second component: the peer Connect returns (None = error).
+   [checks]: the getPeer test is there (commit db8f6a6). *)
+Definition connect_with (checks : bool) (r : reg) (c : conn) (pe : peer) (closed : bool)
+  : reg * option peer :=
+  match is_connected r (remote c) with
+  | Some pe0 => (r, Some pe0)
+  | None =>
+      let '(r', exists_) := add_peer r c pe closed in
+      if checks && exists_ && negb (has (remote c) (overlays r')) then (r', None) else (r', Some pe)
+  end.
+Definition connect := connect_with Generated.c14_connect_checks_registered.
+(* before db8f6a6: the peer was returned whatever addPeer had answered *)
+Definition connect_v2 := connect_with false.
 Definition get_peer_id (r : reg) (a : addr) : option pid := get a (underlays r).
 
 Definition with_streams (r : reg) (st : list (pid * list sid)) (cx : list (sid * bool)) : reg :=
@@ -282,4 +305,12 @@ Definition wiring_ok : bool :=
   Generated.c14_new_sets_disconnector && Generated.c14_new_notifies_registry &&
   Generated.c14_wrapper_get_peer && Generated.c14_wrapper_add_stream &&
   Generated.c14_wrapper_remove_stream &&
-  negb Generated.c14_block_calls_remove_peer && negb Generated.c14_block_calls_get_peer.
+  negb Generated.c14_block_calls_remove_peer && negb Generated.c14_block_calls_get_peer &&
+  Generated.c14_connect_short_circuit && Generated.c14_connect_checks_registered.
+(* removePeer (peers.go) is not modelled: no function of the package calls it *)
+Definition remove_peer_callers : list bool :=
+  [Generated.c14_remove_peer_caller_00; Generated.c14_remove_peer_caller_01; Generated.c14_remove_peer_caller_02;
+   Generated.c14_remove_peer_caller_03; Generated.c14_remove_peer_caller_04; Generated.c14_remove_peer_caller_05;
+   Generated.c14_remove_peer_caller_06; Generated.c14_remove_peer_caller_07; Generated.c14_remove_peer_caller_08;
+   Generated.c14_remove_peer_caller_09; Generated.c14_remove_peer_caller_10; Generated.c14_remove_peer_caller_11;
+   Generated.c14_remove_peer_caller_12; Generated.c14_block_calls_remove_peer].
